@@ -70,11 +70,11 @@ theorem sharp_ddt_dd {N : ℕ} (hN : 0 < N) (ddt dd : ℝ) :
 
 /-- … and those displaced distances are `Ddt·λ(1−κ)`, `Dd·(1+γ)/2` (C03) -/
 theorem sharp_ddt_dd_displaced {N : ℕ} (hN : 0 < N) (ddt dd γ lam κ : ℝ)
-    (hfloor : (1 / 10000 : ℝ) ≤ lam * (1 - κ)) (hlam : lam ≠ 0) :
+    (hfloor : (1 / 10000 : ℝ) ≤ lam * (1 - κ)) :
     let p := Lens.displace ddt dd γ lam κ 0
     ddtDdModelPrediction (fun _ : Fin N => p.1) (fun _ : Fin N => p.2.1)
       = (ddt * (lam * (1 - κ)), 0, dd * (1 + γ) / 2, 0) := by
-  simp only [sharp_ddt_dd hN, C03.displace_formula _ _ _ _ _ _ hfloor hlam]
+  simp only [sharp_ddt_dd hN, C03.displace_formula _ _ _ _ _ _ hfloor]
 
 /-- the types that report a Ddt measurement are exactly the Ddt-carrying types of the generated
     dispatch table that carry a (mean, sigma) — Gaussian and sample-based ones -/
